@@ -16,6 +16,8 @@
 //! MAYV_BUSY=ns: arm i (i >= 1) is BUSY for i * ns of virtual time at the start of its first top half: it keeps its worker
 //! thread without any cancellation point (the thread sleeps, not the coroutine), so a cancel of the arm (Cqueue::finish)
 //! does not end it at once and the owner really parks in the final drain of cqueue::scope / select!.
+//! MAYV_NOSEND=1: the arms end at once without sending; the owner naps 2 ms and goes on (with MAYV_OPANIC=100: fails
+//! without having polled, so that Drop for Cqueue is the only wait for the select coroutines).
 //! MAYV_CAIM=drain (with MAYV_CANCEL=1): the canceller waits until the owner has begun the final drain (the closure of
 //! cqueue::scope was left / the winning arm of select! has run), then MAYV_BUSY/2 longer, and cancels the owner THERE:
 //! parked in poll(None) with the cancel disabled.  The drain must go on waiting for the busy arm.
@@ -92,6 +94,7 @@ struct Cfg {
     o2d: bool,
     busy: u64,
     idle: bool,
+    nosend: bool,
 }
 
 struct Sh {
@@ -364,6 +367,13 @@ fn cq_owner(sh: &Arc<Sh>, seed: u64) {
                     let mut r = Rng::new(aseed);
                     let mut g = ArmGuard { sh: sh2.clone(), i, normal: false, user_panic: false, insend: false };
                     sh2.started[i].store(true, SeqCst);
+                    if sh2.cfg.nosend {
+                        // MAYV_NOSEND=1: the arm ends at once without an event: its Done event is pushed by the drop of
+                        // the EventSender parameter, and the closure environment (GoneGuard) is dropped after that
+                        c.log("arm.end", i as u64, 0, None);
+                        g.normal = true;
+                        return;
+                    }
                     let mut round = 0usize;
                     loop {
                         top_half(&sh2, i, round, &mut r, &mut g);
@@ -386,6 +396,11 @@ fn cq_owner(sh: &Arc<Sh>, seed: u64) {
                 if r.pct(30) {
                     pause(&mut r);
                 }
+            }
+            if cfg.nosend {
+                // the owner does not poll before it fails (MAYV_OPANIC=100): the Done events stay unconsumed, so the
+                // only wait for the select coroutines is the one of Drop for Cqueue
+                nap(2_000_000);
             }
             let mut k = 0u64;
             loop {
@@ -718,6 +733,7 @@ fn main() {
         o2d: envn("MAYV_O2D", 0) == 1,
         busy: envn("MAYV_BUSY", 0),
         idle: envn("MAYV_IDLE", 0) == 1,
+        nosend: envn("MAYV_NOSEND", 0) == 1,
     };
     let caim_drain = envs("MAYV_CAIM", "") == "drain";
     let owner_co = envs("MAYV_OWNER", "co") != "th";
